@@ -503,8 +503,8 @@ class Sweep:
                     continue
                 ub = self.pool(b, db)[0]
                 for t in OFFSET_TARGETS:
-                    v = round(rng.uniform(5.0, 90.0), 2)
-                    for mode in ("copy", "inplace"):
+                    # 25 degC is the witness of the theorem C09_offset_counterexample
+                    for v, mode in [(25.0, "copy"), (25.0, "inplace"), (round(rng.uniform(5.0, 90.0), 2), "copy")]:
                         x = unyt_array(np.array([v]), t)
                         try:
                             if mode == "copy":
